@@ -459,6 +459,33 @@ def quiet_picotool():
         pass
 
 
+class WorkerError(Exception):
+    """an uncaught exception inside a parmap worker; in_repo = it was raised by the code under test"""
+
+    def __init__(self, etype, msg, tb_text, in_repo, where):
+        super().__init__('%s: %s' % (etype, msg))
+        self.etype, self.msg, self.tb_text, self.in_repo, self.where = etype, msg, tb_text, in_repo, where
+
+
+class _Guard:
+    def __init__(self, fn):
+        self.fn = fn
+
+    def __call__(self, x):
+        try:
+            return self.fn(x)
+        except MachineryError:
+            raise
+        except Exception as e:  # noqa
+            import traceback
+            tb = traceback.extract_tb(e.__traceback__)
+            root = os.path.abspath(REPO) + os.sep
+            inner = [f for f in tb if os.path.abspath(f.filename).startswith(root)]
+            in_repo = bool(tb) and bool(inner) and os.path.abspath(tb[-1].filename).startswith(root)
+            where = ('%s:%s' % (os.path.basename(inner[-1].filename), inner[-1].name)) if inner else ''
+            return ('__worker_exception__', type(e).__name__, str(e)[:200], traceback.format_exc()[-3000:], in_repo, where)
+
+
 def parmap(fn, items, procs=16, chunksize=None, min_parallel=64):
     """Fork-based parallel map for pure functions of picklable arguments."""
     import multiprocessing as mp
@@ -466,4 +493,8 @@ def parmap(fn, items, procs=16, chunksize=None, min_parallel=64):
         return [fn(x) for x in items]
     ctx = mp.get_context('fork')
     with ctx.Pool(procs) as pool:
-        return pool.map(fn, items, chunksize or max(1, len(items) // (procs * 8)))
+        res = pool.map(_Guard(fn), items, chunksize or max(1, len(items) // (procs * 8)))
+    for r in res:
+        if isinstance(r, tuple) and len(r) == 6 and r[0] == '__worker_exception__':
+            raise WorkerError(r[1], r[2], r[3], r[4], r[5])
+    return res
